@@ -20,7 +20,18 @@ type vhExpected struct {
 var vhSecS0 = [][]runtime.SecurityCheck{{{SchemaName: "s0", Scopes: []string{"r"}}}}
 var vhSecDefault = [][]runtime.SecurityCheck{{{SchemaName: "sd", Scopes: []string{"d"}}}}
 
+// the second project (apind, no default security, controller without @Security)
+func vhFixtureND() []vhExpected {
+	return []vhExpected{
+		{"GET", "/nd/locked", "OpenController.Locked", [][]runtime.SecurityCheck{{{SchemaName: "s1", Scopes: []string{"w"}}}}, greq.Req{}},
+		{"GET", "/nd/free", "OpenController.Free", nil, greq.Req{}},
+	}
+}
+
 func vhFixture() []vhExpected {
+	if vhProject == 1 {
+		return vhFixtureND()
+	}
 	return []vhExpected{
 		{"GET", "/api/items/{id}", "ItemsController.GetItem", vhSecS0,
 			greq.Req{Path: []greq.KV{{"id", "7"}}, Query: []greq.KV{{"q", "x"}}, Header: []greq.KV{{"x-h", "v"}}}},
